@@ -55,8 +55,11 @@ func c07Scenarios(tier string) []*Scenario {
 					v.mod(&wl, shape)
 					wl.Handler.KeepGoing = false
 					opt := Options{Level: "io", Bound: 1, DevOK: onlyFaults}
+					if !cfg.Reverse && !cfg.ServerNoFC {
+						opt = Options{Level: "io", Bound: 2, DevOK: oneFaultAnyOrder}
+					}
 					if thorough {
-						opt = Options{Level: "io", Bound: 2, DevOK: faultThenAny}
+						opt = Options{Level: "io", Bound: 2, DevOK: oneFaultAnyOrder}
 					}
 					wantCode := "Canceled"
 					if cause == "deadline" {
@@ -169,7 +172,7 @@ func rename(vs []Violation, sig string) []Violation {
 
 func init() {
 	register(&PropDef{ID: "C07", Level: "fault_enumeration",
-		Rule:      "caller-side cancel / deadline expiry of one RPC at every quiescent point of its run (quick: the cause alone, D=1; thorough: cause + one further schedule deviation, which orders the resulting cancel frame against the peer's close/data/window frames) x 4 shapes x handler variants {replying, blocked in Recv, blocked in a window-limited Send} x {forward, reverse} x {flow control, revision zero}; oracle: caller ends with the complete normal outcome (all data + trailers) or Canceled/DeadlineExceeded, never a mixture; handler returns; a second RPC on the same tunnel completes; nothing left behind",
+		Rule:      "caller-side cancel / deadline expiry of one RPC at every quiescent point of its run (quick: the cause alone, D=1, and for forward flow-controlled tunnels the cause plus one further deviation in either order; thorough: cause + one further deviation everywhere, which orders the resulting cancel frame against the peer's close/data/window frames) x 4 shapes x handler variants {replying, blocked in Recv, blocked in a window-limited Send} x {forward, reverse} x {flow control, revision zero}; oracle: caller ends with the complete normal outcome (all data + trailers) or Canceled/DeadlineExceeded, never a mixture; handler returns; a second RPC on the same tunnel completes; nothing left behind",
 		Globals:   []func(*Scenario, *World, *Exec) []Violation{ProtoMonitor},
 		Scenarios: c07Scenarios})
 }
